@@ -18,6 +18,9 @@ p = read_payload()
 tracer.install()
 
 
+CONFIGS = []
+
+
 def read_config(config_file):
     config = ConfigParser()
     if p.get("ini_text") is not None:
@@ -29,6 +32,7 @@ def read_config(config_file):
             config.add_section(sec)
         for k, v in kv.items():
             config.set(sec, k, str(v))
+    CONFIGS.append(config)
     return config
 
 
@@ -58,4 +62,9 @@ res = tracer.TRACER.result()
 res["error"] = err
 res["config"] = p.get("config")
 res["seed"] = p["seed"]
+res["end_of_run_time"] = None
+try:
+    res["end_of_run_time"] = tracer.f2b(float(CONFIGS[-1].get("FinalTimeEndOfRunEventHandler", "end_of_run_time")))
+except Exception:  # noqa
+    pass
 emit(res)
